@@ -72,6 +72,9 @@ def gen(seed: int, tier: str) -> dict[str, Any]:
         ops.append({"t": round(rng.uniform(0.1, horizon), 6), "op": "send", "id": 500 + i})
     if rng.random() < 0.25:
         ops.append({"t": round(rng.uniform(0.2, horizon), 6), "op": "server_close"})
+    elif rng.random() < 0.3:
+        # the connection is cut and every reconnect is answered by an attacker replaying the recorded session
+        ops.append({"t": round(rng.uniform(0.3, horizon), 6), "op": "replay_attack"})
     ops.sort(key=lambda o: o["t"])
     cfg = {"chunk": rng.choice([None, None, 1, 5, 7, 33]), "horizon": horizon, "batch": 1,
            "bad_dev_mac": (not clean) and rng.random() < 0.05, "auth_fail": (not clean) and rng.random() < 0.05}
@@ -163,6 +166,8 @@ def run(plan: dict[str, Any]) -> dict[str, Any]:
             conn.chunker = chunker
             orig_accept(conn)
             last_acc[conn.cid] = -1
+            if gw.replay is not None and "replay_from" not in info:
+                info["replay_from"] = len(delivered)   # frames of the old connection still in flight are genuine
             for op in plan["ops"]:
                 if op["op"] == "inject_at_accept":
                     # a plain frame before the SessionResponse: never accepted (only SessionResponse is)
@@ -298,9 +303,16 @@ def run(plan: dict[str, Any]) -> dict[str, Any]:
                     s.conn.server_close(None)
                     gw.on_close(s.conn)
                     R.extra_faults["server_close"] += 1
+            elif op["op"] == "replay_attack":
+                s = gw.current_session()
+                if s is not None and s.authenticated and s.session_response_raw and gw.replay is None:
+                    gw.replay = [s.session_response_raw] + list(s.sent_wrappers)
+                    R.extra_faults["cross_session_replay_attack"] += 1
+                    s.conn.server_close(None)
+                    gw.on_close(s.conn)
 
         for op in plan["ops"]:
-            if op["op"] in ("inject", "send", "server_close"):
+            if op["op"] in ("inject", "send", "server_close", "replay_attack"):
                 loop.at(t0 + op["t"], (lambda o=op: do(o)), label="op")
         await asyncio.sleep(cfg["horizon"] + 2.0)
         try:
@@ -319,7 +331,13 @@ def run(plan: dict[str, Any]) -> dict[str, Any]:
     # confirmations, ...) are genuine too: only the injected TunnellingRequests (ids 1..999) are compared
     got = [(svc, pid) for (svc, pid) in delivered if svc == W.TUNNEL_REQ and 0 < pid < 500]
     # a server close may cut frames that were in flight: the model list is an upper bound in order, then
-    closed = any(o["op"] == "server_close" for o in plan["ops"])
+    closed = any(o["op"] in ("server_close", "replay_attack") for o in plan["ops"])
+    if "replay_from" in info:
+        # the plain SessionResponse is the one frame a session takes before authentication; its MAC must then fail
+        late = [d for d in delivered[info["replay_from"]:] if d[0] != W.SESSION_RES]
+        if late:
+            R.violate("C29.accept-only-fresh", "frames-of-an-earlier-session-accepted",
+                      f"after the connection was taken over by a replaying attacker {len(late)} frames reached callbacks: {late[:4]}")
     exp = list(expected)
     if "early_seq" in info:
         pass   # the early wrapper must never be delivered (the session was not initialised yet)
@@ -363,6 +381,6 @@ def run(plan: dict[str, Any]) -> dict[str, Any]:
     R.probes["auth_macs_verified"] += gw.auth_mac_checked
     R.probes["sessions"] += len(gw.sessions)
     nontrivial = any(o["op"] in ("inject_at_accept", "early_wrapper") or (o["op"] == "inject" and o["k"] != "genuine")
-                     for o in plan["ops"])
+                     for o in plan["ops"]) or "replay_from" in info
     abstract = [[(o["op"], o.get("k"), o.get("svc")) for o in plan["ops"]], cfg["chunk"], info["connect"], len(got)]
     return R.result(nontrivial=nontrivial, abstract=abstract)
